@@ -80,6 +80,14 @@ Proof.
   rewrite IH by lia. reflexivity.
 Qed.
 
+(* the two overwrites of the copied first transition are independent: canonical order = done outermost *)
+Lemma zipw_nx_dn_comm : forall (ft : vtr) (a : list bool) (b : list nat),
+  zipw set_nx (zipw set_dn ft a) b = zipw set_dn (zipw set_nx ft b) a.
+Proof.
+  unfold zipw. induction ft as [|c ft IH]; intros [|x a] [|y b]; cbn; try reflexivity.
+  rewrite IH. reflexivity.
+Qed.
+
 Lemma zipw_length {A B X} (f : A -> B -> X) l m : length m = length l -> length (zipw f l m) = length l.
 Proof. intros H. unfold zipw. rewrite map_length, combine_length. lia. Qed.
 
@@ -121,7 +129,7 @@ Proof.
       rewrite tany_done. cbn [accum].
       unfold gpow. replace (Z.to_nat (Z.of_nat (length fol1) + 1)) with (S (length fol1)) by lia.
       rewrite (fuse_repr _ ft rs t) by lia.
-      cbn [tget tscale tadd tset].
+      cbn [tget tscale tadd tset]. rewrite ?zipw_nx_dn_comm.
       destruct (any_done t).
       + cbn [bind]. eexists _, _. split; reflexivity.
       + cbn [bind].
